@@ -10,6 +10,45 @@ import sys
 ROOT = os.path.dirname(os.path.dirname(os.path.abspath(__file__)))
 sys.path.insert(0, ROOT)
 
+TECHNIQUE = {
+ "C01": "runtime monitoring: in-program type probes (custom Function via the public trait) + independent kind-membership oracle over generated programs",
+ "C02": "runtime monitoring: outcome monitor + wrapper probes on compiler-infallible expressions + deliberately unhandled fallible expressions",
+ "C03": "runtime monitoring: signature-directed stdlib calls (typed / untyped / wrong-typed delivery) judged by a kind-membership oracle",
+ "C04": "runtime monitoring: panic monitor (catch_unwind + panic hook, process-death classification), overflow/debug assertions on, call fuzz + source fuzz",
+ "C05": "runtime monitoring: CPU-time / address-space watchdog with confirmation re-run (bounded-progress restatement)",
+ "C06": "runtime monitoring: differential against a reference interpreter, unique marker side effects",
+ "C07": "runtime monitoring: differential against a reference interpreter, unique marker side effects",
+ "C08": "runtime monitoring: differential against a reference interpreter + probes exporting defaults and the compiler's kind of `ok`",
+ "C09": "runtime monitoring: differential against a reference interpreter, side-effecting operands",
+ "C10": "runtime monitoring: reference-model oracle (big integers, IEEE doubles, bytes, instants) on edge-pool operand pairs",
+ "C11": "runtime monitoring: reference-model oracle (64-bit masked big integers, IEEE doubles) on edge-pool operand pairs",
+ "C12": "runtime monitoring: compile-time-constant probes compared with runtime values; unhandled-division outcome monitor",
+ "C13": "runtime monitoring: variable-store inspection by name vs reference interpreter; Miri on the unsafe recursive iterator (thorough)",
+ "C14": "runtime monitoring: differential (recompile, second process, reused+cleared runtime, concurrent threads sharing a program); ThreadSanitizer and Miri data-race detector (thorough)",
+ "C15": "runtime monitoring: before/after comparison of read-only locations under a logging Target",
+ "C16": "runtime monitoring: operation-log coverage check through a custom logging Target",
+ "C17": "fault injection: exhaustive single (and pair) fault enumeration on a fault-injecting Target, differential against a skip-target twin",
+ "C18": "runtime monitoring: law checking on the real Value path operations",
+ "C19": "runtime monitoring: kind-membership oracle relating real Kind operations to real Value operations",
+ "C20": "runtime monitoring: round-trip and parser-agreement monitor; exhaustive enumeration of short texts",
+ "C21": "runtime monitoring: round-trip identity with an independent decoder (Python json) separating encoder from decoder faults",
+ "C22": "runtime monitoring: round-trip identity per codec/option with independent Python decoders",
+ "C23": "runtime monitoring: round-trip identity per algorithm with discovered key/IV sizes",
+ "C24": "runtime monitoring: round-trip identity with shrinking to a single pair / character class",
+ "C25": "runtime monitoring: inverse-pair identities with independent Python cross-checks",
+ "C26": "runtime monitoring: round-trip identity over schema-shaped values (schema parsed independently from the .proto sources)",
+ "C27": "runtime monitoring: comparison with reference algorithms (hashlib/hmac, Rocksoft-model CRC, pure-Python xxhash/seahash validated on published vectors)",
+ "C28": "runtime monitoring: algebraic-law monitors over Unicode-heavy inputs",
+ "C29": "runtime monitoring: exact-rational (fractions.Fraction) oracle",
+ "C30": "runtime monitoring: parse-render-parse monitor over grammar-directed queries",
+ "C31": "runtime monitoring: compositional identities on the same event + restricted reference evaluator",
+ "C32": "runtime monitoring: differential against an independent regex engine (Python re) built from an own matcher table",
+ "C33": "runtime monitoring: span / character-boundary / render monitor over mutated sources",
+ "C34": "runtime monitoring: differential P vs P' (flagged expression replaced by null)",
+ "C35": "runtime monitoring: canonical-text round-trip through the embedder Conversion API",
+ "C36": "runtime monitoring: differential across configured timezones with an explicit table of zone-less operations",
+}
+
 NOT_APPLICABLE = {
     # id -> reason (properties this family genuinely cannot decide; filled by hand)
 }
@@ -39,12 +78,13 @@ def main():
             "engine": "vv",
             "level_claimed": {
                 "category": getattr(mod, "LEVEL", "exploration"),
-                "text": getattr(mod, "LEVEL_TEXT", (mod.__doc__ or "").strip().split("\n\n")[0].replace("\n", " ")),
+                "text": getattr(mod, "LEVEL_TEXT", " ".join((mod.__doc__ or "").split())) +
+                        " Verdict: held on the executions observed (counts and samples in the evidence file), violated with a replayable witness, or inconclusive.",
                 "design_ref": getattr(mod, "DESIGN_REF", "DESIGN.md section 3, %s" % pid),
             },
             "level_note": getattr(mod, "LEVEL_NOTE", "; ".join(getattr(mod, "ASSUMPTIONS", [])) or
                                   "held on the executions observed only; worker wire format, Python reference models"),
-            "technique": getattr(mod, "TECHNIQUE", "runtime monitoring: generated workloads on the real code, judged by an executable oracle"),
+            "technique": TECHNIQUE.get(pid, "runtime monitoring: generated workloads on the real code, judged by an executable oracle"),
         }
         if not getattr(mod, "NO_THOROUGH", False):
             c["thorough_cmd"] = "./check %s --tier thorough" % pid
